@@ -584,6 +584,11 @@ class AccessMixin:
             cc = self.engine.index.class_constants(v.ty.args[0].name)
             if cc and attr in cc:
                 return self.engine.pyvalue(cc[attr])      # class-level constant read through the instance
+            kind = self.real_member_kind(v, attr)
+            if kind in ("property", "data"):
+                # a data attribute / property of the real class that the class model does not list: its value is unknown to the
+                # encoding (treating it as a bound method would make `not obj.attr` silently False)
+                raise Unsupported(f"attribute {v.ty.args[0].name}.{attr} is not in the class model")
             return BoundMethod(v, attr)
         if is_str(v) or isinstance(v, (Cell, tuple)) or type(v).__name__ == "DictView":
             return BoundMethod(v, attr)
@@ -596,6 +601,40 @@ class AccessMixin:
         if isinstance(v, (int, float)):
             return BoundMethod(v, attr)
         raise Unsupported(f"attribute {attr} of {v!r}")
+
+    def real_member_kind(self, v, attr):
+        """'method' / 'property' / 'data' for an attribute of the real class behind a modelled object, None when the real class is unknown"""
+        ctx = self.ctx
+        model = v.ty.args[0].name
+        real = None
+        ct = ctx.contract
+        me = ctx.entry_env.get("self") if hasattr(ctx, "entry_env") else None
+        if isinstance(me, SV) and me.t.eq(v.t) and "." in ct.func:
+            real = ct.func.split(".")[0]
+        elif self.engine.index.find_class(model):
+            real = model
+        if real is None:
+            return None
+        seen, todo = set(), [real]
+        while todo:
+            c = todo.pop()
+            if c in seen:
+                continue
+            seen.add(c)
+            hit = self.engine.index.find_class(c)
+            if not hit:
+                return None          # a base class outside the repository: unknown
+            rel, node = hit
+            for st in node.body:
+                if isinstance(st, ast.FunctionDef) and st.name == attr:
+                    decs = [d.id if isinstance(d, ast.Name) else getattr(d, "attr", "") for d in st.decorator_list]
+                    return "property" if ("property" in decs or "setter" in decs) else "method"
+            for b in node.bases:
+                if isinstance(b, ast.Name):
+                    todo.append(b.id)
+                elif isinstance(b, ast.Attribute):
+                    return None
+        return "data"
 
     # ------------------------------------------------------------------ comprehensions
     def e_GeneratorExp(self, n):
